@@ -31,7 +31,21 @@ ASSUMPTIONS = [
     'account_sortkey/possign use the account types of the ledger options (read from the attached connection)',
     'not counted as violations (model and implementation both raise): splitcomp index out of range, maxwidth width < 5, '
     'date_bin with zero stride, dates/years leaving 0001..9999',
+    'tie by translation (C18_source_*, Gen/SrcEnv.v): the semantics of the library calls the translated functions make '
+    '(Model/PrimsEnv.v prim_env: int(), Decimal(), str(), str.split/format, datetime.date, isocalendar, timedelta, '
+    'dateutil weekday, re on literal patterns, beancount.core.account*) is the trusted model of the Python library; '
+    'the PyMini interpreter (Model/PyMini.v) is the trusted semantics of the Python fragment; possign/account_sortkey '
+    'are translated without their first statement (account_types = context.tables[..].types is a parameter)',
 ]
+
+
+def generate():
+    """Regenerate coq/Gen/SrcEnv.v (PyMini translation of the scalar functions of query_env.py) from the live source;
+    raises py2mini.Untranslatable when a tied function left the fragment (reported as translator-failed)."""
+    from . import gen_src, src_env
+    out = gen_src.generate('env')
+    out.update(src_env.report())
+    return out
 
 LO = DATE(1900, 1, 1).toordinal()
 HI = DATE(2100, 12, 31).toordinal()
